@@ -5,6 +5,7 @@ directories of a key set are usable side by side (`keysSeparable`), and
 `dest_injective` across ALL forks of such a call.
 -/
 import Martian.PostProcess
+import Martian.PostProcessDefs
 import Proofs.PostProcess
 import Proofs.PostProcessLeaves
 import Proofs.PostProcessDests
@@ -57,11 +58,6 @@ theorem incomp_under {a b d1 d2 : Path} (h : Incomp a b) (h1 : Under a d1) (h2 :
 theorem incompB_iff {a b : Path} : incompB a b = true ↔ Incomp a b := by
   simp [incompB, Incomp]
 
-/-- propositional reading of `keysSeparable` -/
-def KeysSeparable (outs : Path) (keys : List String) : Prop :=
-  (∀ k ∈ keys, Under outs (joinKey outs k)) ∧
-    keys.Pairwise (fun a b => Incomp (joinKey outs a) (joinKey outs b))
-
 theorem keysSeparable_iff (outs : Path) (keys : List String) :
     keysSeparable outs keys = true ↔ KeysSeparable outs keys := by
   induction keys with
@@ -92,11 +88,6 @@ theorem legal_keys_separable (outs : Path) (keys : List String) (hnd : keys.Nodu
       exact incomp_of_siblings hne (Under.refl _) (Under.refl _)
 
 /-! ## all leaves of all forks -/
-
-/-- the `moveOutFile` calls of `postMap`, fork after fork -/
-def leavesMap (params : List (String × String × Ty)) (outs : Path) : List (String × J) → List Leaf
-  | [] => []
-  | (k, x) :: r => leavesRec params (fieldsOf x) (joinKey outs k) ++ leavesMap params outs r
 
 theorem mem_leavesMap {params : List (String × String × Ty)} {outs : Path} {kvs : List (String × J)} {l : Leaf}
     (h : l ∈ leavesMap params outs kvs) :
@@ -148,15 +139,6 @@ theorem leavesMap_under (params : List (String × String × Ty)) (outs : Path) (
 
 /-! ## refinement: the file-system effect of `postMap` -/
 
-/-- fork after fork: create the fork's directory (when the signature has a
-file-typed output), then the fold of `moveOutFile` over the fork's leaves -/
-def runForks (ps : Path) (params : List (String × String × Ty)) (outs : Path) : List (String × J) → FS → FS
-  | [], fs => fs
-  | (k, x) :: r, fs =>
-    runForks ps params outs r
-      (runLeaves ps (leavesRec params (fieldsOf x) (joinKey outs k))
-        (if hasFileMs params then mkdirAll fs (joinKey outs k) else fs))
-
 theorem postMap_run (ps : Path) (params : List (String × String × Ty)) (outs : Path) (kvs : List (String × J))
     (fs : FS) : (postMap true ps params outs kvs fs).2 = runForks ps params outs kvs fs := by
   induction kvs generalizing fs with
@@ -170,20 +152,79 @@ theorem postMap_run (ps : Path) (params : List (String × String × Ty)) (outs :
     rw [handleOuts_run]
     cases x <;> rfl
 
+/-! ## the repaired branch (`postMapChecked`) -/
+
+theorem postMapChecked_fs (da : Bool) (ps : Path) (params : List (String × String × Ty)) (outs : Path)
+    (kvs : List (String × J)) (fs : FS) :
+    (postMapChecked da ps params outs kvs fs).2 = (postMap da ps params outs (legalForks kvs) fs).2 := by
+  induction kvs generalizing fs with
+  | nil => rfl
+  | cons kv r ih =>
+    obtain ⟨k, x⟩ := kv
+    by_cases hk : legalName k = true
+    · simp only [postMapChecked, hk, if_true, legalForks, List.filter_cons, postMap, joinKey_legal outs k hk]
+      exact ih _
+    · simp only [postMapChecked, hk, legalForks, List.filter_cons]
+      exact ih _
+
+theorem postMapChecked_keys (da : Bool) (ps : Path) (params : List (String × String × Ty)) (outs : Path)
+    (kvs : List (String × J)) (fs : FS) :
+    (postMapChecked da ps params outs kvs fs).1.map Prod.fst = kvs.map Prod.fst := by
+  induction kvs generalizing fs with
+  | nil => rfl
+  | cons kv r ih =>
+    obtain ⟨k, x⟩ := kv
+    by_cases hk : legalName k = true
+    · simp [postMapChecked, hk, ih]
+    · simp [postMapChecked, hk, ih]
+
+theorem postMapChecked_refused (da : Bool) (ps : Path) (params : List (String × String × Ty)) (outs : Path)
+    (kvs : List (String × J)) (fs : FS) (kv : String × J) (hm : kv ∈ kvs) (hk : legalName kv.1 = false) :
+    kv ∈ (postMapChecked da ps params outs kvs fs).1 := by
+  induction kvs generalizing fs with
+  | nil => cases hm
+  | cons kv' r ih =>
+    obtain ⟨k, x⟩ := kv'
+    by_cases hl : legalName k = true
+    · simp only [postMapChecked, hl, if_true]
+      rcases List.mem_cons.mp hm with e | hm'
+      · subst e; simp [hl] at hk
+      · exact List.mem_cons_of_mem _ (ih _ hm')
+    · simp only [postMapChecked, hl]
+      rcases List.mem_cons.mp hm with e | hm'
+      · subst e; exact List.mem_cons_self
+      · exact List.mem_cons_of_mem _ (ih _ hm')
+
+theorem postMapChecked_eq_of_legal (da : Bool) (ps : Path) (params : List (String × String × Ty)) (outs : Path)
+    (kvs : List (String × J)) (fs : FS) (hl : ∀ kv ∈ kvs, legalName kv.1 = true) :
+    postMapChecked da ps params outs kvs fs = postMap da ps params outs kvs fs := by
+  induction kvs generalizing fs with
+  | nil => rfl
+  | cons kv r ih =>
+    obtain ⟨k, x⟩ := kv
+    have hk : legalName k = true := hl (k, x) (by simp)
+    simp only [postMapChecked, hk, if_true, postMap, joinKey_legal outs k hk]
+    rw [ih _ (fun kv hm => hl kv (by simp [hm]))]
+
+theorem legalForks_keys_legal (kvs : List (String × J)) : ∀ k ∈ (legalForks kvs).map Prod.fst, legalName k = true := by
+  intro k hk
+  obtain ⟨kv, hm, rfl⟩ := List.mem_map.mp hk
+  simpa using (List.mem_filter.mp hm).2
+
+theorem legalForks_keys_nodup (kvs : List (String × J)) (h : (kvs.map Prod.fst).Nodup) :
+    ((legalForks kvs).map Prod.fst).Nodup :=
+  List.Nodup.sublist (List.Sublist.map _ List.filter_sublist) h
+
+/-- every destination of the repaired branch lies below the directory of a LEGAL key, hence below outs/ -/
+theorem leavesMap_legal_under (params : List (String × String × Ty)) (outs : Path) (kvs : List (String × J))
+    (h : wfParams params = true) :
+    ∀ l ∈ leavesMap params outs (legalForks kvs), ∃ k, legalName k = true ∧ Under (outs ++ [k]) l.dest := by
+  intro l hl
+  obtain ⟨k, x, hm, hx⟩ := mem_leavesMap hl
+  have hk : legalName k = true := legalForks_keys_legal kvs k (List.mem_map.mpr ⟨(k, x), hm, rfl⟩)
+  rw [joinKey_legal outs k hk] at hx
+  exact ⟨k, hk, leaf_dest_under (leavesRec_under params _ _ h l hx)⟩
+
 /-! ## helpers for the concrete witnesses -/
-
-/-- the string recorded for field `k` of a fork's record -/
-def recStr (j : J) (k : String) : Option String :=
-  match j with
-  | .obj kvs => (lookupLast kvs k).bind J.strVal
-  | _ => none
-
-/-- two forks, each with one file `f` in its own stage directory -/
-def exFS2 : FS :=
-  { get := fun q => if q = ["ps", "MK", "fork0", "files", "f"] then some (.file 1)
-      else if q = ["ps", "MK", "fork1", "files", "f"] then some (.file 2)
-      else if q = ["ps"] ∨ q = ["ps", "MK"] ∨ q = ["ps", "MK", "fork0"] ∨ q = ["ps", "MK", "fork1"] ∨
-        q = ["ps", "MK", "fork0", "files"] ∨ q = ["ps", "MK", "fork1", "files"] then some .dir else none
-    dom := [] }
 
 end Martian.PostProcess
